@@ -61,12 +61,13 @@ CLAIMED["C13"] = dict(
          "channels have pairwise distinct ids, closing never raises KeyError; a received OPEN yields exactly one "
          "datachannel event for an open channel with the opener's id and parameters, a repeated OPEN is ignored; "
          "close() on an open channel resets exactly its stream and the peer's response closes it and frees the id "
-         "for immediate reuse; negotiated channels register under their id, open exactly once when the association "
-         "is (or becomes) established, and a second channel with the id is refused (15 theorems). PARTIAL: cross-endpoint id disjointness and the two-endpoint close protocol are "
+         "for immediate reuse; close() while the association is still being set up queues the stream reset, "
+         "which is requested as soon as the association is established; negotiated channels register under their id, open exactly once when the association "
+         "is (or becomes) established, and a second channel with the id is refused (16 theorems). PARTIAL: cross-endpoint id disjointness and the two-endpoint close protocol are "
          "observed only; the latter is refuted by known findings K4 (RE-CONFIG never retransmitted), K9 (reset request "
          "processed before the DATA it follows), K10 (id reused before both directions are reset).",
     design_ref="5 / C13",
-    note="Congestion state (is _outbound_queue empty after a _send) and UTF-8 validity are oracle inputs of the "
+    note="Congestion state (is _outbound_queue empty after a _send), 'the handshake is in progress' at close() and UTF-8 validity are oracle inputs of the "
          "model; theorems hold for all their values. Tie: differential run against a real RTCSctpTransport with "
          "_send/_send_reconfig_param/ensure_future recorded; two real endpoints running create/send/close programs "
          "under fault schedules as oracle.",
